@@ -82,6 +82,9 @@ func frun(args []string) error {
 				}
 				for m := 0; m < 10; m++ {
 					calls = append(calls, wl.Call{Op: "message", Ch: uint16(m % 3), Seq: uint32(m), Log: uint64(10 + m + int(*seed)), Pub: uint64(m), Data: g.Payload(40)})
+					if m == 2 { // an attachment that declares no content: its source is still read (and may misbehave)
+						calls = append(calls, wl.Call{Op: "attachment", Log: 2, Name: []byte("empty"), Media: []byte("x")})
+					}
 					if m == 4 {
 						calls = append(calls, wl.Call{Op: "attachment", Log: 3, Name: []byte("att"), Media: []byte("x"), Data: []byte("attachment-data")})
 						calls = append(calls, wl.Call{Op: "metadata", Name: []byte("md"), MD: []wl.KV{{K: []byte("k"), V: []byte("v")}}})
